@@ -31,6 +31,17 @@ pub fn block_on_n<F: Future>(fut: F, max_polls: usize) -> F::Output {
     panic!("vcoll: future still pending after max_polls (stand-in await never became ready)");
 }
 
+/// Single poll: every await point of the stand-ins is immediately ready, so the sliced
+/// `async fn` completes in its first poll. (A poll LOOP makes CBMC re-instantiate the whole state
+/// machine per iteration -- measured: out of memory at 24 GB -- so there is none.)
 pub fn block_on<F: Future>(fut: F) -> F::Output {
-    block_on_n(fut, 4)
+    let waker = unsafe { Waker::from_raw(noop_raw()) };
+    let mut cx = Context::from_waker(&waker);
+    let mut fut = fut;
+    // SAFETY: `fut` is never moved after being pinned here.
+    let fut = unsafe { Pin::new_unchecked(&mut fut) };
+    match fut.poll(&mut cx) {
+        Poll::Ready(v) => v,
+        Poll::Pending => panic!("vcoll: future pending after its first poll (a stand-in await was not ready)"),
+    }
 }
